@@ -1,7 +1,7 @@
 """
 C03 - no datagram can make the receive path fail or over-read.
 
-Node level. A multiplexed node carries every shipped overlay on one endpoint (Discovery, DHTDiscovery, Tunnel with its
+Node level. A multiplexed node carries every shipped overlay on one endpoint (Discovery, DHTDiscovery, HiddenTunnel with its
 crypto listener, Pex, Identity, Attestation, a plain Community) plus a catch-all listener registered last; the same
 set also sits on real (never opened) UDPEndpoint / UDPv6Endpoint objects whose ``datagram_received`` entry is called
 directly. Inputs: (i) exhaustive - every byte string of length 0..2, every registered prefix alone, prefix + every id
@@ -57,7 +57,7 @@ def build_mux(loop, endpoint, my_peer, network_cls):
     from ipv8.attestation.wallet.community import AttestationCommunity
     from ipv8.community import Community
     from ipv8.dht.discovery import DHTDiscoveryCommunity
-    from ipv8.messaging.anonymization.community import TunnelCommunity
+    from ipv8.messaging.anonymization.hidden_services import HiddenTunnelCommunity as TunnelCommunity
     from ipv8.messaging.anonymization.pex import PexCommunity
     from ipv8.messaging.interfaces.endpoint import EndpointListener
     from ipv8.peerdiscovery.community import DiscoveryCommunity
